@@ -216,6 +216,16 @@ def rule_r3(ctx):
                 ctx.r.violation(rid, key_of(f, None, "select-before-slice::" + var), "%s is taken before the list was cut to the trusted suffix" % var, f.loc(n))
         else:
             ctx.r.violation(rid, key_of(f, None, "select-index::" + var), "%s = %s: not the leftmost trusted hop" % (var, norm(n.value)), f.loc(n))
+    # the parsed list is index-aligned with the raw list: every iteration over the raw elements appends exactly one entry
+    # (or raises); an element that is skipped shifts the window [-trusted_proxy_count:] of one list against the other
+    gcf = cfg_of(f)
+    for it in [x for x in gcf.nodes if x.kind == "iter" and dotted(x.ast.iter) in ("raw_forwarded",)]:
+        apps = [x for x, c in find_calls(gcf, lambda c: dotted(c.func) == "proxies.append") if any(y is x.ast for y in ast.walk(it.ast))]
+        body_start = [s for (s, l) in it.succ if l == "loop"]
+        if apps and body_start and gcf.path(body_start[0], it, avoid=apps, follow_exc=False) is None:
+            ctx.r.ok(rid, "every Forwarded element yields exactly one parsed entry", f.loc(it.ast))
+        else:
+            ctx.r.violation(rid, key_of(f, None, "forwarded-element-skipped"), "an iteration over the raw Forwarded elements can finish without appending to the parsed list: the parsed and the raw list are cut by the same count but no longer line up (a client-supplied hop is selected)", f.loc(it.ast))
     # Forwarded: reverse walk with or-fill
     loops = [n for n in walk_own(f.node) if isinstance(n, ast.For) and "proxies" in norm(n.iter)]
     ok = False
